@@ -82,6 +82,11 @@ type RunResult struct {
 	MaxTasks    int            `json:"max_tasks"`
 }
 
+// scenarios whose generator does not itself decide about adversarial pools
+var poolAdversarialToo = map[string]bool{"C01": true, "C02": true, "C03": true, "C34": true, "C07": true, "C09": true, "C10": true,
+	"C16": true, "C17": true, "C18": true, "C19": true, "C20": true, "C21": true, "C22": true, "C23": true, "C24": true, "C25": true,
+	"C35": true, "C36": true, "C38": true}
+
 func emit(r *RunResult) {
 	b, _ := json.Marshal(r)
 	fmt.Printf("RESULT %s\n", b)
@@ -137,6 +142,12 @@ func TestSim(t *testing.T) {
 	synctest.Test(t, func(t *testing.T) {
 		e.Net = simnet.New()
 		root := sc(e)
+		// sync.Pool retention is a simulator decision in every scenario that
+		// recycles fasthttp objects: in a share of the runs Get may return any
+		// object ever Put (legal for a pool), so that incomplete resets surface.
+		if !e.Cfg.PoolAdversarial && poolAdversarialToo[e.Prop] {
+			e.Cfg.PoolAdversarial = e.Chance(30)
+		}
 		simsync.SetAdversarialPools(e.Cfg.PoolAdversarial)
 		guarded := func() {
 			defer func() {
